@@ -20,6 +20,9 @@ axiom("u16-additive", {"a": "str", "b": "str"}, "u16(a + b) == u16(a) + u16(b)",
 # representation invariants: assumed for every fragment / node that is read, proved for every
 # fragment that is constructed
 invariant("Fragment", "self.size == pre(self.content, len(self.content))", "self.size >= 0")
+invariant("Node", "self.content.size == pre(self.content.content, len(self.content.content))", "self.content.size >= 0")
+axiom("text-is-leaf", {"t": "NodeType"}, "implies(t.is_text, leaf_t(t))", "the text node type has no content expression (NodeType.compile / ContentMatch.parse of an empty expression)",
+      triggers=["leaf_t(t)"])
 # trusted type invariant, stated globally: every node occupies at least one token (TextNode.__init__
 # rejects empty text, a leaf is one token, any other node has an opening and a closing token)
 axiom("node-size-pos", {"n": "Node"}, "nsize(n) >= 1", "type invariant of Node: empty text nodes cannot be constructed; node_size >= 1",
@@ -150,3 +153,10 @@ try:
     _register_class_attrs()
 except ImportError:
     pass
+
+# simple forwarding properties of Node
+for _p, _e in (("inline_content", "self.type.inline_content"), ("is_block", "self.type.is_block"), ("is_textblock", "self.type.is_block and self.type.inline_content"),
+               ("is_inline", "not self.type.is_block")):
+    contract(FN, f"Node.{_p}", {"self": "Node"}, returns="bool", is_property=True, ensures=[f"result == ({_e})"],
+             trusted="one-line forwarding to the node type (NodeType.is_textblock / is_inline are themselves properties)" if _p in ("is_textblock", "is_inline") else None,
+             props=P2)
